@@ -68,6 +68,9 @@ func H_KeyedLifetimes() {
 		}
 	}
 	consLife := vrt.Pick("clife", 0, 2)
+	// the SAME consumer constructor may be registered a second time, under the
+	// name "c2", with a lifetime of its own (3 = not registered twice)
+	consLife2 := vrt.Pick("clife2", 0, 3)
 	target := vrt.Pick("target", 0, 3) // 0 unkeyed, 1 n0, 2 n1, 3 optional n1
 	tIdx := target
 	if target == 3 {
@@ -75,7 +78,7 @@ func H_KeyedLifetimes() {
 	}
 	registered := present&(1<<tIdx) != 0
 	vrt.Assume(registered || target == 3) // a missing required dependency is C08's other half (H_Build)
-	conflict := registered && consLife != kit.LScoped && life[tIdx] == kit.LScoped
+	conflict := registered && (consLife != kit.LScoped || (consLife2 != 3 && consLife2 != kit.LScoped)) && life[tIdx] == kit.LScoped
 	wantTag := -1
 	if registered {
 		wantTag = []int{12, 10, 11}[tIdx]
@@ -90,10 +93,16 @@ func H_KeyedLifetimes() {
 			func() error {
 				return addWithLife(c, consLife, []any{klConsPlain, klConsN0, klConsN1, klConsOptN1}[target])
 			},
+			func() error {
+				return addWithLife(c, consLife2, []any{klConsPlain, klConsN0, klConsN1, klConsOptN1}[target], godi.Name("c2"))
+			},
 		}
-		perm := [][]int{{0, 1, 2, 3}, {3, 2, 1, 0}, {1, 3, 0, 2}, {2, 0, 3, 1}}[order]
+		perm := [][]int{{0, 1, 2, 3, 4}, {4, 3, 2, 1, 0}, {1, 3, 4, 0, 2}, {2, 0, 4, 3, 1}}[order]
 		for _, k := range perm {
 			if k < 3 && present&(1<<k) == 0 {
+				continue
+			}
+			if k == 4 && consLife2 == 3 {
 				continue
 			}
 			vrt.Assume(regs[k]() == nil)
@@ -108,6 +117,13 @@ func H_KeyedLifetimes() {
 				vrt.Assert(e2 == nil, "C08.notfound_after_build", "the consumer does not resolve after a successful Build:", e2)
 				if e2 == nil {
 					got = v.Got
+				}
+				if consLife2 != 3 {
+					v2, e3 := godi.ResolveKeyed[*KLCons](sc, "c2")
+					vrt.Assert(e3 == nil, "C08.notfound_after_build", "the second registration of the consumer does not resolve after a successful Build:", e3)
+					if e3 == nil {
+						vrt.Assert(v2.Got == wantTag, "C04.wrong_key_injected", "the second registration of the consumer received tag", v2.Got, "but the identity it names holds", wantTag)
+					}
 				}
 				sc.Close()
 			}
